@@ -98,10 +98,10 @@ def attempt(prop, comp, group, ob, rep):
                 if r.get('reproduced'):
                     return r
             return replay_lock_state(comp.name, group.name, tags)
-        mod = {'zipf': 'replay_zipf', 'idm': 'replay_sched', 'epoch': 'replay_sched'}.get(comp.name)
+        mod = {'zipf': 'replay_zipf', 'idm': 'replay_sched', 'epoch': 'replay_sched', 'epochb': 'replay_sched'}.get(comp.name)
         if mod:
             m = __import__(mod)
-            return m.attempt(prop, comp.name, group.name, ob, rep)
+            return m.attempt(prop, 'epoch' if comp.name == 'epochb' else comp.name, group.name, ob, rep)
     finally:
         pass
     return {'reproduced': False, 'detail': 'no native replayer registered for this obligation class'}
